@@ -69,6 +69,23 @@ def scenarios(tier):
                   ("AT", "ExcludeRegion", "enable"), ("EV", "PRINT_DONE"), ("NEWPRINT",)],
                  max_states=150000 if q else 3000000,
                  note="the same @-commands in consecutive prints (every print starts enabled)"),
+        Scenario("c14-actions-reconfigured", World,
+                 dict(base, regions=["R"], at_tables={
+                     "dflt": [{"command": "ExcludeRegion", "parameterPattern": "^\\s*(enable|on)(\\s|$)",
+                               "action": "enable_exclusion", "description": ""},
+                              {"command": "ExcludeRegion", "parameterPattern": "^\\s*(disable|off)(\\s|$)",
+                               "action": "disable_exclusion", "description": ""}],
+                     "alt": [{"command": "ExcludeRegion", "parameterPattern": "^\\s*(enable|on)(\\s|$)",
+                              "action": "enable_exclusion", "description": ""},
+                             {"command": "ExcludeRegion", "parameterPattern": "^\\s*disable(\\s|$)",
+                              "action": "disable_exclusion", "description": ""},
+                             {"command": "Object", "parameterPattern": "^\\s*keep(\\s|$)",
+                              "action": "disable_exclusion", "description": ""}]}),
+                 [("TRAVEL", "I1"), ("TRAVEL", "O2"), ("AT", "ExcludeRegion", "off"), ("AT", "ExcludeRegion", "enable"),
+                  ("AT", "Object", "keep"), ("SETAT", "alt"), ("SETAT", "dflt"), ("NEWPRINT",)],
+                 max_states=150000 if q else 3000000,
+                 note="the table of @-command actions is replaced through the settings between uses of the same "
+                      "@-command text (also across prints)"),
         Scenario("c14-regions-later", World, dict(base, regions=[], maxregions=1, shrink=True),
                  [("TRAVEL", "O2"), ("TRAVEL", "I1"), ("XONLY", "I1"), ("ADD", "R", "r"), ("API", "del", "r", None, False),
                   ("AT", "ExcludeRegion", "disable"), ("AT", "ExcludeRegion", "enable"), ("NEWPRINT",)],
